@@ -269,6 +269,8 @@ pub const E_DEV: u8 = 1;
 pub const E_BRIDGE: u8 = 2;
 pub const E_GHES: u8 = 3;
 pub const E_GHES2: u8 = 4;
+/// a structure obtained through a derived `Default` (44 zero bytes, type 0: not self-describing)
+pub const E_DEFAULT: u8 = 5;
 
 fn hdev(f: &Fill) -> hest::PciDevice {
     hest::PciDevice::new(f.u8(1), f.e(2, 32) as u8, f.e(3, 8) as u8)
@@ -318,6 +320,10 @@ pub fn ref_notification(w: &mut W, f: &Fill, b: u8) {
     w.u8(f.e(b, 16) as u8).u8(28).u16(f.u16(b + 1)).u32(f.u32(b + 2)).u32(f.u32(b + 3)).u32(f.u32(b + 4)).u32(f.u32(b + 5)).u32(f.u32(b + 6)).u32(f.u32(b + 7));
 }
 pub fn hest_ref_entry(w: &mut W, op: &Op) {
+    if op.k == E_DEFAULT {
+        w.z(44);
+        return;
+    }
     let f = &op.fill;
     let global = op.shape & 1 == 0;
     let set = op.shape & 2 != 0;
@@ -371,6 +377,9 @@ pub fn hest_ref_entry(w: &mut W, op: &Op) {
 }
 /// shape bits: 1 = per-device (not GLOBAL), 2 = setters applied, 4 = setters applied in reverse order
 pub fn apply_hest(t: &mut hest::HEST, op: &Op) {
+    if op.k == E_DEFAULT {
+        return t.add_structure(hest::PcieAerDevice::default());
+    }
     let f = &op.fill;
     let global = op.shape & 1 == 0;
     let set = op.shape & 2 != 0;
@@ -483,7 +492,7 @@ impl Table for Hest {
         "hest"
     }
     fn kinds(&self) -> &'static [&'static str] {
-        &["aer_root_port", "aer_device", "aer_bridge", "generic_hardware", "generic_hardware_v2"]
+        &["aer_root_port", "aer_device", "aer_bridge", "generic_hardware", "generic_hardware_v2", "add_structure(PcieAerDevice::default())"]
     }
     fn alphabet(&self, _c: &Ctor, _h: &[Op], level: u8) -> Vec<Op> {
         let mut v = vec![];
@@ -501,7 +510,13 @@ impl Table for Hest {
                 v.push(Op::new(k, 2, 1));
             }
         }
+        if level >= 1 && !_h.iter().any(|o| o.k == E_DEFAULT) {
+            v.push(Op::new(E_DEFAULT, 0, 0));
+        }
         v
+    }
+    fn unwalkable(&self, ops: &[Op]) -> bool {
+        ops.iter().any(|o| o.k == E_DEFAULT)
     }
     fn run(&self, c: &Ctor, ops: &[Op], obs: &mut dyn FnMut(usize, &dyn Aml, &[u32])) {
         let mut t = hest::HEST::new(c.oem_id(), c.oem_table_id(), c.oem_rev());
@@ -520,7 +535,7 @@ impl Table for Hest {
         for op in ops {
             let o = w.len();
             hest_ref_entry(&mut w, op);
-            ents.push(Ent { off: o, ty: 6 + op.k as u32, len: w.len() - o });
+            ents.push(Ent { off: o, ty: if op.k == E_DEFAULT { 0 } else { 6 + op.k as u32 }, len: w.len() - o });
         }
         ref_finish(&mut w);
         RefOut { image: w.0, ents, ..Default::default() }
@@ -561,6 +576,7 @@ impl Table for Hest {
             E_ROOT => vec![E(2), U(8), E(32), E(8), U(32), U(32), U(16), U(32), U(32), U(32), U(32), U(32)],
             E_DEV => vec![E(2), U(8), E(32), E(8), U(32), U(32), U(16), U(32), U(32), U(32), U(32)],
             E_BRIDGE => vec![E(2), U(8), E(32), E(8), U(32), U(32), U(16), U(32), U(32), U(32), U(32), U(32), U(32), U(32)],
+            E_DEFAULT => vec![],
             _ => {
                 let mut v = vec![U(16), E(2), U(32), U(32), U(32)];
                 v.extend(gas_fields());
@@ -575,7 +591,9 @@ impl Table for Hest {
         }
     }
     fn shapes(&self, k: u8) -> Vec<u16> {
-        if k <= E_BRIDGE {
+        if k == E_DEFAULT {
+            vec![0]
+        } else if k <= E_BRIDGE {
             vec![3, 0, 1, 2, 7, 6]
         } else {
             vec![3, 0, 7]
